@@ -189,10 +189,12 @@ class SupervisedOPF(OPF):
         pred_subgraph = Subgraph(X_val, I=I_val)
 
         for i in range(pred_subgraph.n_nodes):
-            conqueror = -1
             j = 0
 
             k = self.subgraph.idx_nodes[j]
+
+            # The first node in the ordered list is the initial conqueror
+            conqueror = k
 
             if self.pre_computed_distance:
                 weight = self.pre_distances[self.subgraph.nodes[k].idx][
